@@ -4,5 +4,6 @@ CONSTANTS
   RN = {"c", "b_c"}
   XN = {}
   Missing = "zz"
+  FX = {}
 INVARIANTS EmitState
 CHECK_DEADLOCK FALSE
